@@ -5,6 +5,7 @@ use crate::common::{Ctx, Report};
 mod c02fm;
 mod c08fm;
 mod c11;
+pub mod c13fm;
 
 pub fn dispatch(ctx: &Ctx, rep: &mut Report) {
     let fm = ctx.leg == "all" || ctx.leg == "fm";
@@ -105,6 +106,7 @@ pub fn dispatch(ctx: &Ctx, rep: &mut Report) {
                 crate::onris::c12::run(ctx, rep);
             }
         },
+        "C13" => c13fm::run(ctx, rep),
         other => {
             eprintln!("unknown check {other}");
             std::process::exit(3);
